@@ -34,7 +34,7 @@ ANCHORS = [
     "acnportal.acndata.utils:parse_dates",
 ]
 REQUIRED = ["interleaved_scenarios", "scenarios_judged", "multi_page_scenarios", "empty_page_scenarios", "zero_document_scenarios", "timeseries_scenarios",
-            "time_filter_scenarios", "date_fields_checked", "timeseries_timestamps_checked", "timeseries_straddling_offset_change", "chains_of_over_1000_pages", "meta_block:small", "meta_block:absent", "meta_block:zero", "round_trips", "tzinfo:zoneinfo", "zoneinfo_fold_1_with_microseconds", "invalid_site_rejections", "calls_leaving_default_options_unmentioned", "filters_with_template_characters", "filter_form:json",
+            "time_filter_scenarios", "date_fields_checked", "timeseries_timestamps_checked", "timeseries_straddling_offset_change", "chains_of_over_1000_pages", "meta_block:small", "meta_block:absent", "meta_block:zero", "round_trips", "tzinfo:zoneinfo", "zoneinfo_fold_1_with_microseconds", "invalid_site_rejections", "calls_leaving_default_options_unmentioned", "filters_with_template_characters", "filter_form:json", "site_given_as:enum", "site_given_as:labelled", "windows_also_asked_for_as_a_count",
             "regime:dst-transition-instant"]
 BUDGET_S = {"quick": 200, "thorough": 2400}
 ZONES = ["America/Los_Angeles", "America/New_York", "Europe/London", "Asia/Kolkata", "Australia/Sydney", "UTC",
@@ -133,9 +133,27 @@ def _run_paging(case, obs):
     token = rng.choice(["tok", "abc123"])
     api = "https://fake.invalid/api/v1/"
     site = rng.choice(["caltech", "jpl", "office001"])
+    site_name = site
+    # the site name as the caller has it: a plain str, a member of a str-valued Enum of the caller's sites, a str subclass whose
+    # str() / format() say something else (a labelled constant); each equals and hashes like the plain name
+    how_site = rng.choice(["str", "str", "str", "enum", "labelled"])
+    if how_site == "enum":
+        import enum
+        site = enum.Enum("Site", {"CALTECH": "caltech", "JPL": "jpl", "OFFICE": "office001"}, type=str)(site_name)
+    elif how_site == "labelled":
+        class Labelled(str):
+            def __str__(self):
+                return "<site " + str.__str__(self) + ">"
+
+            def __format__(self, spec):
+                return "<site>"
+
+            __repr__ = __str__
+        site = Labelled(site_name)
+    obs.ev("site_given_as:" + how_site)
     s0 = SOCK["n"]
     cfg = dict(n=case["n"], tz=tzname, cap=case["cap"], empties=case["empties"], empty_last=case["empty_last"],
-               timeseries=case["ts"], mode=case["mode"], site=site)
+               timeseries=case["ts"], mode=case["mode"], site=site_name, site_given_as=how_site)
     with Installed(fake):
         client = dc.DataClient(token, api)
         mode = case["mode"]
@@ -207,6 +225,19 @@ def _run_paging(case, obs):
             got = list(r_)
             sel = [d for d in docs if (not use_lo or lo <= parsedate_to_datetime(d["connectionTime"]))
                    and (not use_hi or parsedate_to_datetime(d["connectionTime"]) <= hi) and (me is None or d["kWhDelivered"] > me)]
+            if case["seed"] % 3 == 0:
+                # the same window asked for as a number: "the number of sessions which would be returned" - the server counts what
+                # the filter it receives selects
+                nlog_ = len(fake.log)
+                try:
+                    cnt_ = client.get_sessions_by_time(site, *args_, **mkw_, **tskw, count=True)
+                    obs.ev("windows_also_asked_for_as_a_count")
+                    if int(cnt_) != len(sel):
+                        obs.violate("count_differs_from_sessions_returned", f"count=True gives {cnt_!r}, the same window yields {len(sel)} sessions "
+                                    f"(request {fake.log[-1]['url'] if len(fake.log) > nlog_ else None})", config=dict(cfg, sent=sent))
+                except Exception as e_:
+                    obs.ev("count_query_raised:" + type(e_).__name__)
+                del fake.log[nlog_:]  # (the request log judged below is that of the generator)
             # "in server order": the order the server serves for the request it was actually sent (the library asks for
             # connectionTime order; a client that asks for none gets the collection's own order)
             q0_ = parse_qs(urlsplit(fake.log[0]["url"]).query) if fake.log else {}
@@ -239,7 +270,7 @@ def _run_paging(case, obs):
         return
     u = urlsplit(log[0]["url"])
     q = parse_qs(u.query, keep_blank_values=True)
-    endpoint = f"/api/v1/sessions/{site}" + ("/ts/" if case["ts"] else "")
+    endpoint = f"/api/v1/sessions/{site_name}" + ("/ts/" if case["ts"] else "")
     if not log[0]["url"].startswith(api) or u.path != endpoint:
         obs.violate("first_request_endpoint", f"first URL {log[0]['url']} (expected path {endpoint})", **wit)
     if token not in repr(log[0]["auth"]):
